@@ -426,10 +426,16 @@ func runC14(r *Run) {
 					}
 					n++
 					fromSlot := false
-					if ld, ok := st.Val.(*ssa.UnOp); ok && ld.Op == token.MUL {
-						if ia, ok := ld.X.(*ssa.IndexAddr); ok && isEntrySlice(ia.X.Type()) {
-							fromSlot = true
+					isSlotLoad := func(v ssa.Value) bool {
+						if ld, ok := v.(*ssa.UnOp); ok && ld.Op == token.MUL {
+							if ia, ok := ld.X.(*ssa.IndexAddr); ok && isEntrySlice(ia.X.Type()) {
+								return true
+							}
 						}
+						return false
+					}
+					if isSlotLoad(st.Val) {
+						fromSlot = true
 					}
 					_, whole := st.Addr.(*ssa.IndexAddr)
 					r.check(fromSlot && whole, fmt.Sprintf("entries-slot-store:%s#%d", short(f.String()), n), r.pos(in), "a heap slot is overwritten with the value of another heap slot (swap)",
